@@ -100,12 +100,14 @@ func (b *Bytes) Set(src Blob, destStart int64) (n int, err error) {
 	if destStart > int64(b.Len()) {
 		return 0, fmt.Errorf("Offset out of bounds: %d", destStart)
 	}
+	// fetch the source bytes before locking: 'src' can be this blob or one of its views, which share this mutex
+	srcBytes := src.Bytes()
 	b.mu.Lock()
 	defer b.mu.Unlock()
 	if destStart > int64(len(b.bytes)) {
 		return 0, fmt.Errorf("Offset out of bounds: %d", destStart)
 	}
-	n = copy(b.bytes[destStart:], src.Bytes())
+	n = copy(b.bytes[destStart:], srcBytes)
 	return n, nil
 }
 
